@@ -319,13 +319,13 @@ def replay_one(ctx, s, sid, e, order, dom_order, zs, shift, scale, total, spread
                             break
                     # the bulk path (conditionals by division) on the same object with a very small total
                     if not bad and len(e["beliefs"]) >= 2:
-                        m.total = 2e-9
+                        m.total = 3e-13
                         many = m.calculate_many_marginals([tuple(b["at"]) for b in e["beliefs"]])
                         for b in e["beliefs"]:
                             got = np.asarray(many[tuple(b["at"])].values, dtype=float).reshape(-1)
-                            want = np.array(b["w"], dtype=float) * 2e-9 / Z
-                            if got.shape != want.shape or not np.allclose(got, want, rtol=1e-9, atol=1e-24):
-                                bad.append("calculate_many_marginals at total 2e-9: %s = %s, brute force %s" % (tuple(b["at"]), got.tolist(), want.tolist()))
+                            want = np.array(b["w"], dtype=float) * 3e-13 / Z
+                            if got.shape != want.shape or not np.allclose(got, want, rtol=1e-9, atol=1e-28):
+                                bad.append("calculate_many_marginals at total 3e-13: %s = %s, brute force %s" % (tuple(b["at"]), got.tolist(), want.tolist()))
                                 break
                         m.total = total
                         if hasattr(m, "marginals"):
